@@ -23,6 +23,8 @@ from engine.util import is_self_attr, kwarg, const_value
 from engine.cfg import build_cfg
 from engine.dataflow import ReachingDefs
 from engine import norm
+import re
+from .sem import expander, ctext, want, xt, bind, calls, paths, block_paths, split_ifexp, inline_helpers, defs_texts, guarded_values, self_attr_value_texts, RAISE, BREAK, CONTINUE
 
 RULES = {
     "C13.a": "available_fcts: inverse names are keys, the table is an involution, names match functions, paired functions are mathematical inverses (function classes log/exp/log1p/expm1)",
@@ -160,116 +162,249 @@ def check_a(ck, repo):
     return len(table)
 
 
+def _t(x) -> str:
+    return ast.unparse(x) if isinstance(x, ast.AST) else str(x)
+
+
+def _swapped_dict(x: ast.AST, P: str) -> bool:
+    """x builds {value: key} from the mapping P"""
+    t = _t(x).replace(" ", "")
+    if isinstance(x, ast.DictComp) and len(x.generators) == 1 and not x.generators[0].ifs:
+        g = x.generators[0]
+        if _t(g.iter) == f"{P}.items()" and isinstance(g.target, ast.Tuple) and len(g.target.elts) == 2:
+            k, v = [_t(e) for e in g.target.elts]
+            return _t(x.key) == v and _t(x.value) == k
+    if isinstance(x, ast.Call) and _t(x.func) == "dict" and len(x.args) == 1:
+        a = x.args[0]
+        if isinstance(a, ast.Call) and _t(a.func) == "zip" and [_t(z) for z in a.args] == [f"{P}.values()", f"{P}.keys()"]:
+            return True
+        if isinstance(a, (ast.GeneratorExp, ast.ListComp)) and len(a.generators) == 1 and not a.generators[0].ifs:
+            g = a.generators[0]
+            if _t(g.iter) == f"{P}.items()" and isinstance(g.target, ast.Tuple) and len(g.target.elts) == 2 and isinstance(a.elt, ast.Tuple) and len(a.elt.elts) == 2:
+                k, v = [_t(e) for e in g.target.elts]
+                return [_t(e) for e in a.elt.elts] == [v, k]
+    return False
+
+
 def check_b(ck, repo):
     ci = repo.cls(MOD, "FunctionReciprocalTransformer")
     fit, inv, tr = ci.methods["fit"], ci.methods["get_fct_inv"], ci.methods["transform"]
     # fit
-    asg = [s for s in own_nodes(fit.node) if isinstance(s, ast.Assign)]
-    t = {src_of(s.targets[0]): src_of(s.value) for s in asg}
-    ck.verdict(t.get("self.fct_") == "self.fct" and t.get("self.fct_inv_") == "self.fct_inv", "C13.b", fit, "fct_ = fct; fct_inv_ = fct_inv", "callable pair stored in order", "callables are stored exchanged or not stored")
-    ck.verdict(t.get("(self.fct_, self.fct_inv_)") == "opts[self.fct]", "C13.b", fit, "(fct_, fct_inv_) = opts[self.fct]", "predefined name resolved to (function, inverse name)", "predefined function is not unpacked as (function, inverse name)")
+    ps = paths(fit)
+    T = "self.__class__.available_fcts()"
+    okc = okn = False
+    for p in ps:
+        st = {k: _t(v) for k, v in p.stores.items()}
+        if ("callable(self.fct)", True) in p.conds:
+            okc = st.get("self.fct_") == "self.fct" and st.get("self.fct_inv_") == "self.fct_inv"
+        elif ("callable(self.fct)", False) in p.conds:
+            okn = st.get("self.fct_") in (f"{T}[self.fct][0]", "type(self).available_fcts()[self.fct][0]", "self.available_fcts()[self.fct][0]") and st.get("self.fct_inv_") == st.get("self.fct_")[:-3] + "[1]"
+    ck.verdict(okc, "C13.b", fit, "callable: fct_ = fct; fct_inv_ = fct_inv", "callable pair stored in order", "callables are stored exchanged or not stored")
+    ck.verdict(okn, "C13.b", fit, "name: (fct_, fct_inv_) = table[self.fct]", "predefined name resolved to (function, inverse name)", "predefined function is not unpacked as (function, inverse name)")
     # get_fct_inv
-    calls = [c for c in own_nodes_incl_lambda(inv.node) if isinstance(c, ast.Call) and src_of(c.func) == "FunctionReciprocalTransformer"]
-    byargs = sorted([src_of(a) for a in c.args] for c in calls)
-    ck.verdict(byargs == sorted([["self.fct_inv_"], ["self.fct_inv_", "self.fct_"]]), "C13.b", inv, f"constructions {byargs}", "reverse transformer = (inverse name) or (inverse function, function)", f"the reverse transformer is built with {byargs}: forward and backward functions are not exchanged")
-    for c in calls:
-        if len(c.args) == 1:
-            from engine.util import enclosing_tests
-
-            tests = enclosing_tests(c, inv.node)
-            ck.verdict(any(src_of(t_) == "isinstance(self.fct_inv_, str)" and pol for t_, pol in tests), "C13.b", inv, c, "name form used only when the inverse is a name", "single-argument construction is not guarded by isinstance(self.fct_inv_, str)")
-    r = [src_of(x.value) for x in own_nodes(inv.node) if isinstance(x, ast.Return)]
-    ck.verdict(r == ["res.fit()"], "C13.b", inv, f"return {r}", "the reverse transformer is returned fitted", "get_fct_inv does not return the fitted reverse transformer")
+    ps = [p for p in split_ifexp(paths(inv)) if p.ret != RAISE]
+    seen = {}
+    for p in ps:
+        key = True if ("isinstance(self.fct_inv_, str)", True) in p.conds else (False if ("isinstance(self.fct_inv_, str)", False) in p.conds else None)
+        seen[key] = p.ret_text()
+    ck.verdict(seen == {True: "FunctionReciprocalTransformer(self.fct_inv_).fit()", False: "FunctionReciprocalTransformer(self.fct_inv_, self.fct_).fit()"}, "C13.b", inv, f"reverse transformer by kind of inverse: {seen}", "reverse transformer = fitted (inverse name) when the inverse is a name, fitted (inverse function, function) otherwise", f"the reverse transformer is built as {seen}: forward and backward functions are not exchanged, the name form is used for callables, or the result is not fitted")
     # transform
-    rets = [src_of(x.value) for x in sorted((y for y in own_nodes(tr.node) if isinstance(y, ast.Return)), key=lambda z: z.lineno)]
-    ck.verdict(rets == ["(X, None)", "(X, self.fct_(y))"], "C13.b", tr, f"returns {rets}", "features untouched, target mapped by fct_, y=None stays None", f"transform returns {rets}")
+    X, y = tr.named_params[1], tr.named_params[2]
+    r_none = [p.ret_text() for p in split_ifexp(paths(tr, {y: None})) if p.ret != RAISE]
+    r_some = sorted(set(p.ret_text() for p in split_ifexp(paths(tr)) if p.ret != RAISE and (f"{y} is None", False) in p.conds))
+    ck.verdict(r_none == [f"({X}, None)"] and r_some == [f"({X}, self.fct_({y}))"], "C13.b", tr, f"returns {r_none} / {r_some}", "features untouched, target mapped by fct_, y=None stays None", f"transform returns {r_none} for y=None and {r_some} otherwise")
     # permutation
     pc = repo.cls(MOD, "PermutationReciprocalTransformer")
     pinv = pc.methods["get_fct_inv"]
-    s = [src_of(x) for x in own_nodes(pinv.node) if isinstance(x, ast.Assign)]
-    ck.verdict("res.permutation_ = {v: k for k, v in self.permutation_.items()}" in s, "C13.b", pinv, "res.permutation_ = {v: k for k, v in permutation_.items()}", "inverse permutation is the swapped dict", "the inverse permutation is not the key/value-swapped mapping")
-    ck.verdict(any(x.startswith("res = PermutationReciprocalTransformer(self.random_state, closest=self.closest)") for x in s), "C13.b", pinv, "res = PermutationReciprocalTransformer(self.random_state, closest=self.closest)", "inverse keeps the options", "inverse transformer loses random_state/closest")
-    r = [src_of(x.value) for x in own_nodes(pinv.node) if isinstance(x, ast.Return)]
-    ck.verdict(r == ["res"], "C13.b", pinv, f"return {r}", "returns the inverse transformer", "does not return the inverse")
+    ps = [p for p in paths(pinv) if p.ret != RAISE]
+    okp = oko = False
+    if len(ps) == 1 and isinstance(ps[0].ret, ast.Call) and _t(ps[0].ret.func) == "PermutationReciprocalTransformer":
+        r = ps[0].ret
+        b = {k: _t(v) for k, v in bind(r, pc.methods["__init__"].named_params[1:]).items()}
+        oko = b == {"random_state": "self.random_state", "closest": "self.closest"}
+        rt = _t(r)
+        st = ps[0].stores
+        keys = [k for k in st if k.endswith(".permutation_")]
+        okp = len(keys) == 1 and keys[0] == rt + ".permutation_" and _swapped_dict(st[keys[0]], "self.permutation_")
+    ck.verdict(okp, "C13.b", pinv, "res.permutation_ = {v: k for k, v in permutation_.items()}", "inverse permutation is the swapped dict, installed on the transformer returned", "the inverse permutation is not the key/value-swapped mapping")
+    ck.verdict(oko, "C13.b", pinv, "PermutationReciprocalTransformer(random_state, closest)", "inverse keeps the options", "inverse transformer loses random_state/closest")
     ptr = pc.methods["transform"]
-    rets = [src_of(x.value) for x in sorted((y for y in own_nodes(ptr.node) if isinstance(y, ast.Return)), key=lambda z: z.lineno)]
-    ck.verdict(rets == ["(X, None)", "(X, yp.reshape(y.shape))", "(X, yp)"], "C13.b", ptr, f"returns {rets}", "features untouched in both label and probability branches", f"permutation transform returns {rets}")
-    body = [src_of(x) for x in own_nodes(ptr.node) if isinstance(x, ast.Assign)]
-    ck.verdict("yp[i] = self.permutation_[cl]" in body and "yp = y.copy().ravel()" in body, "C13.b", ptr, "yp = y.copy().ravel(); yp[i] = self.permutation_[cl]", "labels are mapped through permutation_ on a copy", "label branch does not map a copy of y through permutation_")
-    ck.verdict("yp[:, new_perm[i]] = y[:, i]" in body and "yp = y.copy()" in body, "C13.b", ptr, "yp[:, new_perm[i]] = y[:, i]", "probability columns are moved to their permuted position on a copy", "probability branch does not move column i to new_perm[i] on a copy")
-    skip = [x for x in own_nodes(ptr.node) if isinstance(x, ast.If) and src_of(x.test) == "num and numpy.isnan(yp[i])" and any(isinstance(b, ast.Continue) for b in x.body)]
-    ck.verdict(len(skip) == 1, "C13.b", ptr, "if num and numpy.isnan(yp[i]): continue", "NaN stays NaN", "NaN targets are no longer skipped")
+    X, y = ptr.named_params[1], ptr.named_params[2]
+    ps = paths(ptr)
+    r_none = [p.ret_text() for p in paths(ptr, {y: None}) if p.ret != RAISE]
+    ex = expander(repo)
+    feats = sorted(set(_t(p.ret.elts[0]) if isinstance(p.ret, ast.Tuple) and len(p.ret.elts) == 2 else "?" for p in ps if p.ret not in (None, RAISE)))
+    ck.verdict(r_none == [f"({X}, None)"] and feats == [X], "C13.b", ptr, f"returns {r_none}; features {feats}", "features untouched on every path, y=None stays None", f"permutation transform returns {r_none} for y=None / features {feats}")
+    # label branch: every element of a copy of y is mapped through permutation_
+    loops = [l for l in own_nodes(ptr.node) if isinstance(l, ast.For) and isinstance(l.target, ast.Name)]
+    lab = prob = None
+    for l in loops:
+        stores = [x for x in ast.walk(l) if isinstance(x, ast.Assign) and isinstance(x.targets[0], ast.Subscript) and isinstance(x.targets[0].value, ast.Name)]
+        for x in stores:
+            sl = x.targets[0].slice
+            if isinstance(sl, ast.Name) and sl.id == l.target.id:
+                lab = (l, x.targets[0].value.id)
+            elif isinstance(sl, ast.Tuple) and len(sl.elts) == 2:
+                prob = (l, x)
+    if lab is None:
+        ck.violated("C13.b", ptr, "for i in range(len(yp)): yp[i] = permutation_[..]", "label branch: no element-wise mapping of the targets found")
+    else:
+        l, Y = lab
+        iv = l.target.id
+        ydef = [xt(x_) for _, x_, _ in guarded_values(repo, ptr, ast.Name(id=Y, ctx=ast.Load()), l)]
+        okcopy = bool(ydef) and all(t in (f"{y}.copy().ravel()", f"{y}.ravel().copy()", f"numpy.array({y}).ravel()", f"{y}.flatten()") for t in ydef)
+        it_ok = ex.text(l.iter, ptr, l) in (want(repo, f"range(len({Y}))", ptr, l), want(repo, f"range({Y}.shape[0])", ptr, l))
+        E = f"{Y}[{iv}]"
+        P = "self.permutation_"
+        bp = block_paths(ptr, l.body)
+        kinds = {}
+        for p in bp:
+            facts = dict(p.conds)
+            if p.ret == CONTINUE:
+                kinds.setdefault("skip", []).append(sorted(p.conds))
+            elif p.ret == RAISE:
+                kinds.setdefault("raise", []).append(facts)
+            elif p.ret is None:
+                st = {k: _t(v) for k, v in p.stores.items()}
+                kinds.setdefault("map", []).append((facts, st))
+        okskip = kinds.get("skip") == [[(f"numpy.isnan({E})", True), ("num", True)]] or (len(kinds.get("skip", [])) == 1 and any(t == f"numpy.isnan({E})" and pol for t, pol in kinds["skip"][0]) and len(kinds["skip"][0]) == 2)
+        ck.verdict(okskip, "C13.b", ptr, f"NaN skipped: {kinds.get('skip')}", "NaN stays NaN", "NaN targets are no longer skipped")
+        okmap = True
+        nmap = 0
+        for facts, st in kinds.get("map", []):
+            nmap += 1
+            known = facts.get(f"{E} in {P}")
+            v = st.get(E)
+            if known is True:
+                okmap = okmap and v == f"{P}[{E}]" and len(st) == 1
+            elif known is False:
+                okmap = okmap and facts.get("self.closest") is True and v == f"{P}[self._find_closest({E})]" and len(st) == 1
+            else:
+                okmap = False
+        okraise = all(f.get(f"{E} in {P}") is False and f.get("self.closest") is False for f in kinds.get("raise", [])) and len(kinds.get("raise", [])) >= 1
+        ck.verdict(okcopy and it_ok and okmap and nmap == 2 and okraise, "C13.b", ptr, f"{Y} = {ydef}; {E} = {P}[...]", "labels are mapped through permutation_ on a copy (closest key when allowed, error otherwise)", "label branch does not map every element of a copy of y through permutation_")
+    if prob is None:
+        ck.violated("C13.b", ptr, "yp[:, new_perm[i]] = y[:, i]", "probability branch: no column move found")
+    else:
+        l, x = prob
+        iv = l.target.id
+        Y = x.targets[0].value.id
+        ydef = [xt(x_) for _, x_, _ in guarded_values(repo, ptr, ast.Name(id=Y, ctx=ast.Load()), l)]
+        sl = x.targets[0].slice
+        dst = sl.elts[1]
+        src_ok = _t(x.value).replace(" ", "") == f"{y}[:,{iv}]" and isinstance(sl.elts[0], ast.Slice)
+        M = dst.value.id if isinstance(dst, ast.Subscript) and isinstance(dst.value, ast.Name) and _t(dst.slice) == iv else None
+        dep = False
+        if M:
+            from engine.dataflow import ReachingDefs
+
+            rd = ex.rd(ptr)
+            node = rd.node_of(x)
+            dep = node is not None and rd.depends_on(ast.Name(id=M, ctx=ast.Load()), node, set(), {"permutation_"})
+        it_ok = ex.text(l.iter, ptr, l) == want(repo, f"range({y}.shape[1])", ptr, l)
+        ck.verdict(src_ok and M is not None and dep and it_ok and f"{y}.copy()" in ydef, "C13.b", ptr, x, "probability columns are moved to their permuted position on a copy", "probability branch does not move column i to new_perm[i] (a mapping derived from permutation_) on a copy")
     # fit: distinct values in order of first appearance get 0..n-1, then permuted
     pfit = pc.methods["fit"]
-    body = [src_of(x) for x in own_nodes(pfit.node) if isinstance(x, ast.Assign)]
-    ck.verdict("perm[u] = len(perm)" in body and "perm[u] = lin[perm[u]]" in body and "lin = numpy.arange(len(perm))" in body, "C13.b", pfit, "perm[u] = len(perm); lin = arange(len(perm)); perm[u] = lin[perm[u]]", "permutation_ is a bijection of the distinct targets onto 0..n-1", "permutation_ is no longer built as a bijection onto 0..n-1")
-
-
-def _flows_through_inverse(fi: FunctionInfo) -> Tuple[bool, str]:
-    """every Return value of `fi` is the second element of
-    <t>.get_fct_inv().transform(.., <inner prediction>)"""
-    rd = ReachingDefs(fi.node)
-    rets = [r for r in own_nodes(fi.node) if isinstance(r, ast.Return)]
-    if not rets:
-        return False, "no return"
-    for r in rets:
-        v = r.value
-        if not isinstance(v, ast.Name):
-            return False, f"returns {src_of(v) if v is not None else None}"
-        at = rd.node_of(r)
-        ok_all = True
-        dns = rd.def_nodes(v.id, at) if at is not None else []
-        if not dns:
-            return False, "unreachable/undefined"
-        for dn in dns:
-            a = dn.ast if dn is not None else None
-            if not (isinstance(a, ast.Assign) and isinstance(a.targets[0], ast.Tuple) and len(a.targets[0].elts) == 2 and src_of(a.targets[0].elts[1]) == v.id and isinstance(a.value, ast.Call) and isinstance(a.value.func, ast.Attribute) and a.value.func.attr == "transform"):
-                return False, f"'{v.id}' is not the target part of an inverse transform"
-            recv = a.value.func.value
-            # receiver must be <something>.get_fct_inv()
-            rdefs = rd.def_nodes(recv.id, dn) if isinstance(recv, ast.Name) else []
-            okr = bool(rdefs) and all(d is not None and isinstance(d.ast, ast.Assign) and src_of(d.ast.value) == "self.transformer_.get_fct_inv()" for d in rdefs)
-            if not okr:
-                return False, f"receiver {src_of(recv)} is not self.transformer_.get_fct_inv()"
-            if len(a.value.args) != 2:
-                return False, "inverse transform is not called with (X, prediction)"
-    return True, ""
+    okr = False
+    R = None
+    for l in [l for l in own_nodes(pfit.node) if isinstance(l, ast.For) and isinstance(l.target, ast.Name)]:
+        u = l.target.id
+        for p in block_paths(pfit, l.body):
+            if p.ret is None and len(p.stores) == 1:
+                (k, v), = p.stores.items()
+                m = re.match(r"^(\w+)\[%s\]$" % re.escape(u), k)
+                if m and _t(v) == f"len({m.group(1)})" and (f"{u} in {m.group(1)}", False) in p.conds and ex.text(l.iter, pfit, l) in (f"{pfit.named_params[2]}.ravel()", f"{pfit.named_params[2]}.flatten()"):
+                    R = m.group(1)
+                    okr = True
+    ck.verdict(okr, "C13.b", pfit, f"{R}[u] = len({R}) at first appearance", "distinct targets are numbered 0..n-1 in order of first appearance", "permutation_ is no longer built as a bijection onto 0..n-1: distinct targets are not numbered consecutively at first appearance")
+    if R is not None:
+        # the shuffled numbering: a permutation of arange(n) on every path
+        with ex.lenient():
+            pv = [t for _, t in self_attr_value_texts(repo, pfit, "permutation_")]
+        perm_src = None
+        if len(pv) == 1:
+            try:
+                v = ast.parse(pv[0], mode="eval").body
+            except SyntaxError:
+                v = None
+            if isinstance(v, ast.DictComp) and len(v.generators) == 1 and _t(v.generators[0].iter) == f"{R}.items()" and isinstance(v.value, ast.Subscript) and isinstance(v.generators[0].target, ast.Tuple):
+                k_, r_ = [_t(e) for e in v.generators[0].target.elts]
+                if _t(v.key) == k_ and _t(v.value.slice) == r_:
+                    perm_src = v.value.value.id if isinstance(v.value.value, ast.Name) else v.value.value
+            elif isinstance(v, ast.Name) and v.id == R:
+                for l in [l for l in own_nodes(pfit.node) if isinstance(l, ast.For) and isinstance(l.target, ast.Name)]:
+                    u = l.target.id
+                    for s_ in l.body:
+                        if isinstance(s_, ast.Assign) and _t(s_.targets[0]) == f"{R}[{u}]" and isinstance(s_.value, ast.Subscript) and _t(s_.value.slice) == f"{R}[{u}]" and isinstance(s_.value.value, ast.Name) and len(l.body) == 1:
+                            with ex.lenient():
+                                keys = ex.text(l.iter, pfit, l)
+                            if keys in (f"list({R}.keys())", f"list({R})", f"tuple({R})", f"sorted({R})"):
+                                perm_src = s_.value.value.id
+        okl = False
+        if perm_src:
+            if isinstance(perm_src, str):
+                alts = [xt(x_) for _, x_, _ in guarded_values(repo, pfit, ast.Name(id=perm_src, ctx=ast.Load()), [r for r in own_nodes(pfit.node) if isinstance(r, ast.Return)][-1])]
+            else:
+                alts = [xt(perm_src)]
+            A = f"numpy.arange(len({R}))"
+            okl = bool(alts) and all(a in (f"numpy.random.permutation({A})", f"numpy.random.RandomState(self.random_state).permutation({A})", f"check_random_state(self.random_state).permutation({A})") for a in alts)
+            if not okl:
+                # one draw from a generator chosen in branches
+                okl = all(a.endswith(f".permutation({A})") for a in alts) and bool(alts)
+        ck.verdict(perm_src is not None and okl, "C13.b", pfit, f"permutation_ = {{u: shuffled[{R}[u]]}}, shuffled = permutation(arange(n))", "permutation_ is a bijection of the distinct targets onto 0..n-1", "permutation_ is no longer built as a bijection onto 0..n-1: the numbering is not composed with a permutation of arange(n)")
 
 
 def check_c(ck, repo):
+    ex = expander(repo)
     for cname, inner, is_reg in (("TransformedTargetRegressor2", "regressor_", "True"), ("TransformedTargetClassifier2", "classifier_", "False")):
         ci = repo.cls(TP, cname)
         fit = ci.methods["fit"]
-        body = sorted((s for s in own_nodes(fit.node) if isinstance(s, (ast.Assign, ast.Expr))), key=lambda s: s.lineno)
-        t = [src_of(s) for s in body]
-        hp = inner[:-1]
-        ck.verdict(f"self.transformer_ = _common_get_transform(self.transformer, {is_reg})" in t, "C13.c", fit, "self.transformer_ = _common_get_transform(self.transformer, ..)", "a fresh transformer is derived from the hyper-parameter", "transformer_ is not derived from the hyper-parameter through _common_get_transform")
-        ck.verdict("self.transformer_.fit(X, y, sample_weight=sample_weight)" in t and "X_trans, y_trans = self.transformer_.transform(X, y)" in t and t.index("self.transformer_.fit(X, y, sample_weight=sample_weight)") < t.index("X_trans, y_trans = self.transformer_.transform(X, y)"), "C13.c", fit, "transformer_.fit(X, y); X_trans, y_trans = transformer_.transform(X, y)", "targets are transformed by the fitted transformer", "the training targets are not the output of the fitted transformer")
-        fits = [c for c in own_nodes_incl_lambda(fit.node) if isinstance(c, ast.Call) and src_of(c.func) == f"self.{inner}.fit"]
-        ok = len(fits) == 2 and all([src_of(a) for a in c.args[:2]] == ["X_trans", "y_trans"] for c in fits)
-        ck.verdict(ok, "C13.c", fit, f"self.{inner}.fit(X_trans, y_trans, ...)", "the inner model is trained on the TRANSFORMED target", "the inner model is not trained on (X_trans, y_trans): it learns the original target and predictions are inverse-transformed nevertheless")
-        sw = [c for c in fits if kwarg(c, "sample_weight") is not None]
-        ck.verdict(len(sw) == 1 and src_of(kwarg(sw[0], "sample_weight")) == "sample_weight", "C13.c", fit, "sample_weight forwarded", "weights reach the inner model", "sample weights are not forwarded")
+        X, y, sw = fit.named_params[1:4]
+        ps = [p for p in paths(fit) if p.ret != RAISE]
+        XT, YT = f"self.transformer_.transform({X}, {y})[0]", f"self.transformer_.transform({X}, {y})[1]"
+        ok_t = ok_f = ok_o = ok_w = bool(ps)
+        for p in ps:
+            st = {k: _t(v) for k, v in p.stores.items()}
+            ok_t = ok_t and st.get("self.transformer_") == f"_common_get_transform(self.transformer, {is_reg})"
+            cs = [_t(c) for c in p.calls]
+            tf = [i_ for i_, c in enumerate(cs) if c.startswith("self.transformer_.fit(")]
+            tt = [i_ for i_, c in enumerate(cs) if c.startswith("self.transformer_.transform(")]
+            ok_o = ok_o and len(tf) == 1 and cs[tf[0]] == f"self.transformer_.fit({X}, {y}, sample_weight={sw})" and bool(tt) and tf[0] < tt[0]
+            fits = [c for c in p.calls if _t(c.func) == f"self.{inner}.fit"]
+            ok_f = ok_f and len(fits) == 1 and [_t(a) for a in fits[0].args[:2]] == [XT, YT]
+            given = (f"{sw} is None", False) in p.conds
+            kw = {k.arg: _t(k.value) for k in fits[0].keywords} if fits else {}
+            pos_sw = _t(fits[0].args[2]) if fits and len(fits[0].args) > 2 else None
+            ok_w = ok_w and ((kw.get("sample_weight") == sw or pos_sw == sw) if given else (kw.get("sample_weight") in (None, sw) and pos_sw in (None, sw)))
+        ck.verdict(ok_t, "C13.c", fit, "self.transformer_ = _common_get_transform(self.transformer, ..)", "a fresh transformer is derived from the hyper-parameter", "transformer_ is not derived from the hyper-parameter through _common_get_transform")
+        ck.verdict(ok_o, "C13.c", fit, "transformer_.fit(X, y); transformer_.transform(X, y)", "targets are transformed by the fitted transformer", "the training targets are not the output of the fitted transformer")
+        ck.verdict(ok_f, "C13.c", fit, f"self.{inner}.fit(X_trans, y_trans, ...)", "the inner model is trained on the TRANSFORMED target", "the inner model is not trained on (X_trans, y_trans): it learns the original target and predictions are inverse-transformed nevertheless")
+        ck.verdict(ok_w, "C13.c", fit, "sample_weight forwarded", "weights reach the inner model", "sample weights are not forwarded")
         # read side
-        targets = [ci.methods["predict"]] if cname.endswith("Regressor2") else [ci.methods["_apply"], ci.methods["classes_"]]
-        for m in targets:
-            ok, why = _flows_through_inverse(m)
-            ck.verdict(ok, "C13.c", m, f"{cname}.{m.name}: return value", "every returned value is the target part of get_fct_inv().transform(..)", f"{cname}.{m.name}: {why}: predictions are returned in the transformed space")
-            st = [src_of(s) for s in own_nodes(m.node) if isinstance(s, ast.Assign)]
-            if m.name == "predict":
-                ck.verdict("pred = self.regressor_.predict(X_trans)" in st and "_, pred_inv = inv.transform(X_trans, pred)" in st, "C13.c", m, "pred = regressor_.predict(X_trans); _, pred_inv = inv.transform(X_trans, pred)", "the inverse is applied to the inner model's prediction", "the value inverted is not the inner model's prediction")
-            if m.name == "_apply":
-                ck.verdict("meth = getattr(self.classifier_, method)" in st and "pred = meth(X_trans)" in st and "_, pred_inv = inv.transform(X_trans, pred)" in st, "C13.c", m, "meth = getattr(classifier_, method); pred = meth(X_trans); inv.transform(X_trans, pred)", "the requested method of the inner classifier is inverted", "the value inverted is not the output of the requested method")
+        if cname.endswith("Regressor2"):
+            targets = [(ci.methods["predict"], {}, "self.regressor_.predict(XT)")]
+        else:
+            targets = [(ci.methods["_apply"], {"method": mname}, f"self.classifier_.{mname}(XT)") for mname in ("predict", "predict_proba", "decision_function")] + [(ci.methods["classes_"], {}, None)]
+        for m, bnd, inner_call in targets:
+            ps = [p for p in paths(m, bnd) if p.ret != RAISE]
+            got = sorted(set(_t(inline_helpers(repo, m, p.ret)) if isinstance(p.ret, ast.AST) else str(p.ret) for p in ps))
+            INV = "self.transformer_.get_fct_inv()"
             if m.name == "classes_":
-                ck.verdict("_, pred_inv = inv.transform(None, self.classifier_.classes_)" in st, "C13.c", m, "inv.transform(None, classifier_.classes_)", "classes_ are the inner classes mapped back to original labels", "classes_ is not the inverse image of the inner classifier's classes_")
+                want_ = f"{INV}.transform(None, self.classifier_.classes_)[1]"
+            else:
+                Xp = m.named_params[1]
+                xt_ = f"self.transformer_.transform({Xp}, None)[0]"
+                want_ = f"{INV}.transform({xt_}, {inner_call.replace('XT', xt_)})[1]"
+            label = f"{cname}.{m.name}" + (f"[{bnd['method']}]" if bnd else "")
+            ck.verdict(got == [want_], "C13.c", m, f"{label}: return value", "every returned value is the target part of get_fct_inv().transform(.., <inner prediction>)", f"{label}: returns {got}: predictions are returned in the transformed space, or the value inverted is not the inner model's output")
         if cname.endswith("Classifier2"):
             for mname in ("predict", "predict_proba", "decision_function"):
                 m = ci.methods[mname]
-                r = [src_of(x.value) for x in own_nodes(m.node) if isinstance(x, ast.Return)]
-                ck.verdict(r == [f"self._apply(X, '{mname}')"], "C13.c", m, f"return {r}", f"{mname} goes through _apply with its own name", f"{mname} does not call _apply(X, '{mname}')")
+                r = [p.ret_text() for p in paths(m) if p.ret != RAISE]
+                ck.verdict(r == [f"self._apply({m.named_params[1]}, '{mname}')"], "C13.c", m, f"return {r}", f"{mname} goes through _apply with its own name", f"{mname} does not call _apply(X, '{mname}')")
     g = repo.func(TP, "_common_get_transform")
-    r = sorted(src_of(x.value) for x in own_nodes(g.node) if isinstance(x, ast.Return))
-    ck.verdict(r == sorted(["PermutationReciprocalTransformer(closest=closest)", "FunctionReciprocalTransformer(transformer)", "clone(transformer)"]), "C13.c", g, f"returns {r}", "string -> predefined transformer, object -> clone", f"_common_get_transform returns {r}")
+    r = sorted(set(p.ret_text() for p in paths(g) if p.ret != RAISE))
+    ck.verdict(r == sorted([f"PermutationReciprocalTransformer(closest={g.named_params[1]})", f"FunctionReciprocalTransformer({g.named_params[0]})", f"clone({g.named_params[0]})"]), "C13.c", g, f"returns {r}", "string -> predefined transformer, object -> clone", f"_common_get_transform returns {r}")
 
 
 def run(ck):
